@@ -146,8 +146,8 @@ PROPS['C19'] = {
 
 PROPS['C01'] = {
     'kani': {
-        'quick': [krun(['c01::q::', 'gen_c01::q::'], timeout=900, bounds='element addresses at a symbolic index for N <= 8 over u8,u32,u64,(u8,u16),A16(align 16),Z8(aligned ZST),(),[u8;3],[u64;3]; type-level size/alignment equalities for every N in 0..=64 and 127..1024 boundary values (u8, (u8,u16)), N <= 33 (A16, Z8), and every typenum-named 2^k, 2^k-1, 10^k up to 2^63 (u8 up to 2^60, aligned ZST above)')],
-        'thorough': [krun(['c01::', 'gen_c01::'], timeout=2400, bounds='quick + every N in 0..=1024 for u8,(u8,u16),A16; 0..=256 for [u64;3]; element addresses up to N = 65')],
+        'quick': [krun(['c01::q::', 'gen_c01::q::', 'c10::q::native::'], timeout=900, bounds='element addresses at a symbolic index for N <= 8 over u8,u32,u64,(u8,u16),A16(align 16),Z8(aligned ZST),(),[u8;3],[u64;3]; type-level size/alignment equalities for every N in 0..=64 and 127..1024 boundary values (u8, (u8,u16)), N <= 33 (A16, Z8), and every typenum-named 2^k, 2^k-1, 10^k up to 2^63 (u8 up to 2^60, aligned ZST above)')],
+        'thorough': [krun(['c01::', 'gen_c01::', 'c10::q::native::', 'c10::t::native::'], timeout=2400, bounds='quick + every N in 0..=1024 for u8,(u8,u16),A16; 0..=256 for [u64;3]; element addresses up to N = 65')],
     },
     'functions': ['GenericArray (repr(transparent))', 'GenericArrayImplEven / GenericArrayImplOdd (repr(C))', 'ArrayLength::ArrayType for UTerm/UInt<N,B0>/UInt<N,B1>', 'GenericArray::{as_slice, as_ref::<[T;N]>}', 'ConstDefault for the storage nodes'],
     'bounds': 'K validates against rustc; L (layout induction) is the deciding step for all N.',
@@ -167,7 +167,7 @@ PROPS['C20'] = {
 
 PROPS['C14'] = {
     'kani': {
-        'quick': [krun(['c14::q::'], timeout=1200, bounds='N in {0,1,2,15,16,17} (both sides of the N<16 strategy threshold); all byte values; precision None or symbolic in 0..=2N+2; lower and upper case; fallback encoder (feature faster-hex off)')],
+        'quick': [krun(['c14::q::'], timeout=1200, bounds='N in {0,1,2,15,16,17,19} (both sides of the N<16 strategy threshold; 19 = first length where an encoder input of >= 16 bytes whose length is not a multiple of 4 meets a longer buffer); all byte values; precision None or symbolic in 0..=2N+2; lower and upper case; fallback encoder (feature faster-hex off)')],
         'thorough': [krun(['c14::'], timeout=3600, bounds='N in 0..=17 and 31..=33')],
     },
     'functions': ['generic_hex', 'hex_encode', 'hex_encode_fallback', 'LowerHex/UpperHex for GenericArray<u8,N>'],
@@ -178,7 +178,7 @@ PROPS['C14'] = {
 
 PROPS['C15'] = {
     'kani': {
-        'quick': [krun(['c15::q::'], timeout=900, bounds='N in {0,1,3}; Vec/Box<[T]> sources of length 0, N-1, N, N+1 with spare capacity 0..=2 (one harness per combination), conversion form symbolic; tracked elements; block identity for u32,u64,(); boxed constructors with symbolic salt')],
+        'quick': [krun(['c15::q::', 'c07::q::collect::'], timeout=900, bounds='N in {0,1,3}; Vec/Box<[T]> sources of length 0, N-1, N, N+1 with spare capacity 0..=2 (one harness per combination), conversion form symbolic; tracked elements; block identity for u32,u64,(); boxed constructors with symbolic salt')],
         'thorough': [krun(['c15::'], timeout=2400, bounds='N up to 8')],
     },
     'functions': ['TryFrom<Vec<T>>/TryFrom<Box<[T]>> for GenericArray', 'GenericArray::{into_boxed_slice,into_vec,try_from_boxed_slice,try_from_vec,default_boxed,try_boxed_from_iter}', 'From<GenericArray> for Vec<T>/Box<[T]>', 'FromIterator for Box<GenericArray>', 'GenericSequence::generate for Box<GenericArray>', 'IntoIterator for Box<GenericArray>'],
